@@ -1,3 +1,61 @@
-(* placeholder, replaced by the real theorems *)
-Theorem placeholder_C03 : True. Proof. exact I. Qed.
-Print Assumptions placeholder_C03.
+(* C03 — Commands run once per entry; reads are effect-free; current() is the last result.
+   Property theorems only (proofs: Proofs/EngineJump.v, Proofs/EngineSem.v).  The ghost log of the model
+   records, in order, every passage entry (EvEnter), every command executed (EvStmt/EvBlock/EvHook) and the
+   start of every rendering (EvRenderStart). *)
+From Coq Require Import String Ascii List Bool ZArith Arith.
+From Bardic Require Import PyStr Value Compiled Engine EngineBase EngineNav EngineParams EngineSem EngineJump
+     PyMini EngineCheck.
+Import ListNotations.
+
+(* entering a passage runs each of its commands exactly once, in source order: the log grows by the entry event
+   followed by exactly the passage's command list ... *)
+Theorem commands_once_in_order : forall orc ctxkeys st pid p s s',
+  get_passage st pid = Some p -> execute_passage orc ctxkeys st pid s = (s', Ok tt) ->
+  log s' = log s ++ EvEnter pid :: cmd_events (execute p).
+Proof. exact execute_passage_log_exact. Qed.
+Print Assumptions commands_once_in_order.
+
+(* ... before its text is rendered (chain_concatenates in Props/C08.v gives the order execute -> render -> follow
+   the jump), and every passage along a jump chain is entered exactly once: the entries logged by one
+   navigation are pairwise distinct and distinct from the passages entered earlier in the chain *)
+Theorem chain_enters_each_passage_once : forall orc ctxkeys st f spec vis s s' o,
+  NoDup vis -> goto_rec orc ctxkeys st f spec vis s = (s', Ok o) ->
+  exists lg, log s' = log s ++ lg /\ NoDup (vis ++ entered lg) /\ entered lg <> [].
+Proof. exact goto_rec_entered. Qed.
+Print Assumptions chain_enters_each_passage_once.
+
+(* rendering executes nothing but the statements, blocks and hook commands that stand inside the blocks it
+   renders: it never enters a passage and never runs a hook passage *)
+Theorem rendering_enters_nothing : forall orc ctxkeys st pid s s' r,
+  render_passage orc ctxkeys st pid s = (s', r) ->
+  exists lg, log s' = log s ++ lg /\ List.Forall low_event lg.
+Proof.
+  intros orc ctxkeys st pid s s' r H.
+  destruct (FrameM_render_passage orc ctxkeys st pid _ _ _ H) as [_ _ _ _ _ _ L]. exact L.
+Qed.
+Print Assumptions rendering_enters_nothing.
+
+(* current() always returns what the last navigation call returned *)
+Theorem current_is_last_result : forall orc ctxkeys st f spec vis s s' o,
+  goto_rec orc ctxkeys st f spec vis s = (s', Ok o) -> out (nc s') = Some o.
+Proof. exact goto_rec_out. Qed.
+Print Assumptions current_is_last_result.
+
+(* Read-only calls.  In the model current(), the choice listings, has_choices/is_end, story info, save_state,
+   save metadata, can_undo/can_redo are functions of the state (view_of, current_out); the model operation
+   OpRead is the identity.  That the implementation's read methods are effect-free is exactly what the
+   correspondence run checks (a battery of read calls anywhere in a history, state compared before/after);
+   no theorem about the model can add to that. *)
+Theorem reads_effect_free : forall orc ctxkeys st e, step orc ctxkeys st e OpRead = (e, ObsOk).
+Proof. reflexivity. Qed.
+Print Assumptions reads_effect_free.
+
+(* non-vacuity: a chain of two passages logs both entries, each once *)
+Definition chain_story : story :=
+  mkStory "A" [("A"%string, mkPassage "A" [] [TText "a"; TJump "B" ""] [] [TPyStmt "x = 1"] [] []);
+               ("B"%string, mkPassage "B" [] [TText "b"] [] [TPyStmt "y = 2"] [] [])] [] [].
+Definition ok_orc : pyorc := mkOrc (fun _ _ => Ok VNone) (fun c _ => Ok c)
+                                   (fun _ _ => Ok ""%string) (fun _ _ => Ok ([], [])).
+Example chain_entries :
+  entered (elog (fst (init ok_orc [] chain_story []))) = ["A"%string; "B"%string].
+Proof. vm_compute. reflexivity. Qed.
